@@ -42,6 +42,46 @@ abbrev Rid := Nat
 def lowerByte (b : UInt8) : UInt8 := if 65 ≤ b ∧ b ≤ 90 then b + 32 else b
 def toLower (s : Str) : Str := s.map lowerByte
 
+/-! ## the host of a request (pkg/gateway/endpoints/request/requestinfo.go, pkg/gateway/net) -/
+
+def indexOfByte (s : Str) (b : UInt8) : Option Nat := s.findIdx? (· == b)
+
+def lastIndexOfByte (s : Str) (b : UInt8) : Option Nat :=
+  match indexOfByte s.reverse b with
+  | none => none
+  | some i => some (s.length - 1 - i)
+
+def hasByte (s : Str) (b : UInt8) : Bool := s.any (· == b)
+
+/-- the host part of `net.SplitHostPort(hostport)`, `none` when it returns an error
+    (58 = ':', 91 = '[', 93 = ']') -/
+def splitHost (hp : Str) : Option Str :=
+  match lastIndexOfByte hp 58 with
+  | none => none                                         -- missing port in address
+  | some i =>
+    if hp.head? = some 91 then
+      match indexOfByte hp 93 with
+      | none => none                                     -- missing ']' in address
+      | some e =>
+        if e + 1 = hp.length then none                   -- missing port
+        else if e + 1 = i then
+          if hasByte (hp.drop 1) 91 then none            -- unexpected '['
+          else if hasByte (hp.drop (e + 1)) 93 then none -- unexpected ']'
+          else some ((hp.take e).drop 1)
+        else none                                        -- too many colons / missing port
+    else
+      if hasByte (hp.take i) 58 then none                -- too many colons
+      else if hasByte hp 91 then none
+      else if hasByte hp 93 then none
+      else some (hp.take i)
+
+/-- `net.HostWithoutPort(req.Host)`: what `NewExtraRequestInfo` stores as `Hostname` -/
+def hostWithoutPort (hostport : Str) : Str :=
+  let l := toLower hostport
+  match splitHost l with
+  | some h => h
+  | none => l
+
 /-! ## clusters, endpoints, manager -/
 
 structure Endpoint where
@@ -56,7 +96,7 @@ def Endpoint.isReady (e : Endpoint) : Bool := !e.disabled && e.healthy
 inductive ErrKind
   | notFound   -- ErrClusterNotFound
   | noReady    -- ErrNoReadyEndpoints
-  | moved      -- "host … does not belong to cluster … any more"
+  | moved      -- "host … does not belong to cluster … any more" (the host changed hands while the request was processed)
   | upstream   -- the review failed (transport error, or status.Error of a TokenReview)
   | both       -- "webhook subject access review returned both allow and deny response"
 deriving DecidableEq, Repr
@@ -95,6 +135,11 @@ structure Cfg where
   failureTTL : Nat
   allowTTL : Nat
   denyTTL : Nat
+  /-- `AuthenticateToken` refuses a request whose `info.UpstreamCluster` (set by WithUpstreamInfo, the cluster the
+      dispatcher proxies to) is not the cluster `ClientFor(host)` returns now (read from the source: `KG.Gen.C12`) -/
+  bindTok : Bool := false
+  /-- the same for `Authorize` -/
+  bindSar : Bool := false
 deriving Repr
 
 /-- `cachedTokenAuthenticator`: `ok && successTTL > 0` → successTTL; `!ok && failureTTL > 0` → failureTTL -/
@@ -259,6 +304,7 @@ structure TokPend where
   host : Str
   tok : Str
   inst : Inst          -- `cluster` of the first ClientFor
+  upstream : Option Inst  -- `info.UpstreamCluster` (none: the request did not pass WithUpstreamInfo); ghost unless `bindTok`
   stage : TokStage
 deriving DecidableEq, Repr
 
@@ -273,6 +319,7 @@ structure SarPend where
   host : Str
   attrs : Attrs
   inst : Inst          -- `cluster` of ClientFor
+  upstream : Option Inst  -- `info.UpstreamCluster`
   ep : Str             -- endpoint whose clientset `client` is
   ready : List Str     -- ready endpoints when it was picked (ghost)
   stage : SarStage
@@ -307,6 +354,7 @@ structure TokOut where
   host : Str
   tok : Str
   inst : Option Inst       -- cluster the request resolved to at `tokBegin`
+  upstream : Option Inst   -- cluster the request was bound to by WithUpstreamInfo (where it is proxied)
   res : TokRes
   time : Time
   src : Src
@@ -319,6 +367,7 @@ structure SarOut where
   host : Str
   attrs : Attrs
   inst : Option Inst
+  upstream : Option Inst
   res : SarRes
   time : Time
   src : Src
@@ -426,18 +475,24 @@ def readyNames (s : State) (c : Inst) : List Str := (readyOf s c).map (·.name)
 
 /-! ## token steps -/
 
-def tokOutErr (s : State) (rid : Rid) (host tok : Str) (inst : Option Inst) (k : ErrKind) : Out :=
-  .tok { rid := rid, host := host, tok := tok, inst := inst, res := .error k, time := s.clock, src := .none,
+def tokOutErr (s : State) (rid : Rid) (host tok : Str) (inst up : Option Inst) (k : ErrKind) : Out :=
+  .tok { rid := rid, host := host, tok := tok, inst := inst, upstream := up, res := .error k, time := s.clock, src := .none,
          ep := none, ready := [] }
 
-/-- first `ClientFor(host)` of `AuthenticateToken` -/
-def tokBegin (s : State) (rid : Rid) (host tok : Str) (choice : Nat) : State × List Out :=
+/-- does a request bound to `up` have to be refused when its host resolves to `c` now? -/
+def boundElsewhere (bind : Bool) (up : Option Inst) (c : Inst) : Bool :=
+  bind && up.isSome && decide (up ≠ some c)
+
+/-- first `ClientFor(host)` of `AuthenticateToken`; `up` is `info.UpstreamCluster` -/
+def tokBegin (env : Env) (s : State) (rid : Rid) (host tok : Str) (choice : Nat) (up : Option Inst) : State × List Out :=
   if rid < s.nextRid then (s, [])
   else
     let s := { s with nextRid := rid + 1 }
     match clientFor s host choice with
-    | .error k => (s, [tokOutErr s rid host tok (mgrGet s.mgr host) k])
-    | .ok (c, _) => (setTok s ⟨rid, host, tok, c, .resolved⟩, [])
+    | .error k => (s, [tokOutErr s rid host tok (mgrGet s.mgr host) up k])
+    | .ok (c, _) =>
+      if boundElsewhere env.cfg.bindTok up c then (s, [tokOutErr s rid host tok (some c) up .moved])
+      else (setTok s ⟨rid, host, tok, c, up, .resolved⟩, [])
 
 /-- `caches.Load(key)` / `LoadOrStore(key, tokencache.New(…))`, or the cache-less path when both TTLs are 0 -/
 def tokCache (env : Env) (s : State) (rid : Rid) : State × List Out :=
@@ -472,7 +527,7 @@ def tokLookup (s : State) (rid : Rid) : State × List Out :=
       match tokGet s cid p.tok with
       | some e =>
         if s.clock < e.expiry then
-          let out : Out := .tok { rid := rid, host := p.host, tok := p.tok, inst := some p.inst, res := e.ans.res,
+          let out : Out := .tok { rid := rid, host := p.host, tok := p.tok, inst := some p.inst, upstream := p.upstream, res := e.ans.res,
                                   time := s.clock, src := .cached e.storedAt e.expiry, ep := none, ready := [] }
           (delTok s rid, [out])
         else (setTok s { p with stage := .missed (some cid) }, [])
@@ -487,9 +542,9 @@ def tokReview (s : State) (rid : Rid) (choice : Nat) : State × List Out :=
     match p.stage with
     | .missed cid =>
       match clientFor s p.host choice with
-      | .error k => (delTok s rid, [tokOutErr s rid p.host p.tok (some p.inst) k])
+      | .error k => (delTok s rid, [tokOutErr s rid p.host p.tok (some p.inst) p.upstream k])
       | .ok (cur, e) =>
-        if cur ≠ p.inst then (delTok s rid, [tokOutErr s rid p.host p.tok (some p.inst) .moved])
+        if cur ≠ p.inst then (delTok s rid, [tokOutErr s rid p.host p.tok (some p.inst) p.upstream .moved])
         else (setTok s { p with stage := .inFlight cid e.name (readyNames s p.inst) }, [])
     | _ => (s, [])
   | none => (s, [])
@@ -501,7 +556,7 @@ def tokFinish (env : Env) (s : State) (rid : Rid) : State × List Out :=
     match p.stage with
     | .inFlight cid ep ready =>
       let ans := env.tokO p.inst p.tok s.clock
-      let out : Out := .tok { rid := rid, host := p.host, tok := p.tok, inst := some p.inst, res := ans.res,
+      let out : Out := .tok { rid := rid, host := p.host, tok := p.tok, inst := some p.inst, upstream := p.upstream, res := ans.res,
                               time := s.clock, src := .fresh, ep := some ep, ready := ready }
       let s1 := delTok s rid
       match cid with
@@ -516,18 +571,20 @@ def tokFinish (env : Env) (s : State) (rid : Rid) : State × List Out :=
 
 /-! ## authorization steps -/
 
-def sarOutErr (s : State) (rid : Rid) (host : Str) (attrs : Attrs) (inst : Option Inst) (ep : Option Str) (k : ErrKind) : Out :=
-  .sar { rid := rid, host := host, attrs := attrs, inst := inst, res := sarErr k, time := s.clock, src := .none,
+def sarOutErr (s : State) (rid : Rid) (host : Str) (attrs : Attrs) (inst up : Option Inst) (ep : Option Str) (k : ErrKind) : Out :=
+  .sar { rid := rid, host := host, attrs := attrs, inst := inst, upstream := up, res := sarErr k, time := s.clock, src := .none,
          ep := ep, ready := [] }
 
 /-- `cluster, client, err := a.clientProvider.ClientFor(host)` -/
-def sarBegin (s : State) (rid : Rid) (host : Str) (attrs : Attrs) (choice : Nat) : State × List Out :=
+def sarBegin (env : Env) (s : State) (rid : Rid) (host : Str) (attrs : Attrs) (choice : Nat) (up : Option Inst) : State × List Out :=
   if rid < s.nextRid then (s, [])
   else
     let s := { s with nextRid := rid + 1 }
     match clientFor s host choice with
-    | .error k => (s, [sarOutErr s rid host attrs (mgrGet s.mgr host) none k])
-    | .ok (c, e) => (setSar s ⟨rid, host, attrs, c, e.name, readyNames s c, .resolved⟩, [])
+    | .error k => (s, [sarOutErr s rid host attrs (mgrGet s.mgr host) up none k])
+    | .ok (c, e) =>
+      if boundElsewhere env.cfg.bindSar up c then (s, [sarOutErr s rid host attrs (some c) up none .moved])
+      else (setSar s ⟨rid, host, attrs, c, up, e.name, readyNames s c, .resolved⟩, [])
 
 /-- `caches.Load(ck)` / `LoadOrStore(ck, cache.NewLRUExpireCache(8192))` -/
 def sarCache (s : State) (rid : Rid) : State × List Out :=
@@ -559,7 +616,7 @@ def sarLookup (s : State) (rid : Rid) : State × List Out :=
       match sarGet s cid (specOf p.attrs) with
       | some e =>
         if s.clock ≤ e.expiry then
-          let out : Out := .sar { rid := rid, host := p.host, attrs := p.attrs, inst := some p.inst,
+          let out : Out := .sar { rid := rid, host := p.host, attrs := p.attrs, inst := some p.inst, upstream := p.upstream,
                                   res := decideStatus e.st, time := s.clock, src := .cached e.storedAt e.expiry,
                                   ep := none, ready := [] }
           (delSar s rid, [out])
@@ -575,7 +632,7 @@ def sarFinish (env : Env) (s : State) (rid : Rid) : State × List Out :=
     match p.stage with
     | .inFlight cid =>
       let ans := env.sarO p.inst (specOf p.attrs) s.clock
-      let out : Out := .sar { rid := rid, host := p.host, attrs := p.attrs, inst := some p.inst, res := ans.res,
+      let out : Out := .sar { rid := rid, host := p.host, attrs := p.attrs, inst := some p.inst, upstream := p.upstream, res := ans.res,
                               time := s.clock, src := .fresh, ep := some p.ep, ready := p.ready }
       let s1 := delSar s rid
       match ans with
@@ -591,12 +648,12 @@ def sarFinish (env : Env) (s : State) (rid : Rid) : State × List Out :=
 
 inductive Step
   | ev (e : Ev)
-  | tokBegin (rid : Rid) (host tok : Str) (choice : Nat)
+  | tokBegin (rid : Rid) (host tok : Str) (choice : Nat) (up : Option Inst)
   | tokCache (rid : Rid)
   | tokLookup (rid : Rid)
   | tokReview (rid : Rid) (choice : Nat)
   | tokFinish (rid : Rid)
-  | sarBegin (rid : Rid) (host : Str) (attrs : Attrs) (choice : Nat)
+  | sarBegin (rid : Rid) (host : Str) (attrs : Attrs) (choice : Nat) (up : Option Inst)
   | sarCache (rid : Rid)
   | sarLookup (rid : Rid)
   | sarFinish (rid : Rid)
@@ -604,12 +661,12 @@ deriving DecidableEq, Repr
 
 def step (env : Env) (s : State) : Step → State × List Out
   | .ev e => (evStep s e, [])
-  | .tokBegin rid host tok ch => tokBegin s rid host tok ch
+  | .tokBegin rid host tok ch up => tokBegin env s rid host tok ch up
   | .tokCache rid => tokCache env s rid
   | .tokLookup rid => tokLookup s rid
   | .tokReview rid ch => tokReview s rid ch
   | .tokFinish rid => tokFinish env s rid
-  | .sarBegin rid host attrs ch => sarBegin s rid host attrs ch
+  | .sarBegin rid host attrs ch up => sarBegin env s rid host attrs ch up
   | .sarCache rid => sarCache s rid
   | .sarLookup rid => sarLookup s rid
   | .sarFinish rid => sarFinish env s rid
@@ -623,23 +680,26 @@ def runSteps (env : Env) : State → List Step → State × List Out
     (r'.1, r.2 ++ r'.2)
 
 /-- a whole token request with nothing in between -/
-def tokSteps (rid : Rid) (host tok : Str) (ch1 ch2 : Nat) : List Step :=
-  [.tokBegin rid host tok ch1, .tokCache rid, .tokLookup rid, .tokReview rid ch2, .tokFinish rid]
+def tokSteps (rid : Rid) (host tok : Str) (ch1 ch2 : Nat) (up : Option Inst := none) : List Step :=
+  [.tokBegin rid host tok ch1 up, .tokCache rid, .tokLookup rid, .tokReview rid ch2, .tokFinish rid]
 
 /-- a whole authorization request with nothing in between -/
-def sarSteps (rid : Rid) (host : Str) (attrs : Attrs) (ch : Nat) : List Step :=
-  [.sarBegin rid host attrs ch, .sarCache rid, .sarLookup rid, .sarFinish rid]
+def sarSteps (rid : Rid) (host : Str) (attrs : Attrs) (ch : Nat) (up : Option Inst := none) : List Step :=
+  [.sarBegin rid host attrs ch up, .sarCache rid, .sarLookup rid, .sarFinish rid]
 
 /-! ## scheduled requests (what the correspondence harness drives)
 
-`Macro.tok host tok ch1 ch2 mid1 mid2`: the request's steps with `mid1` run when the closure calls `ClientFor`
+`Macro.tok hostport tok ch1 ch2 bound mid0 mid1 mid2` (`hostport` is the request's `Host` header; the steps get
+`hostWithoutPort hostport`, as `NewExtraRequestInfo` does). A `bound` request first passes WithUpstreamInfo
+(pkg/gateway/endpoints/filters/upstreaminfo.go): `info.UpstreamCluster := manager.Get(host)`, 503 when unknown; `mid0` runs
+between that filter and the authenticator / authorizer. Then the request's steps with `mid1` run when the closure calls `ClientFor`
 (between `tokLookup` and `tokReview`) and `mid2` run while the review is in flight (between `tokReview` and
 `tokFinish`); `Macro.sar … mid`: `mid` runs while the review is in flight. `mid` lists may contain whole nested
 requests. Every request is preceded by `tick 1` (a real clock never stands still between two requests). -/
 inductive Macro
   | ev (e : Ev)
-  | tok (host tok : Str) (ch1 ch2 : Nat) (mid1 mid2 : List Macro)
-  | sar (host : Str) (attrs : Attrs) (ch : Nat) (mid : List Macro)
+  | tok (hostport tok : Str) (ch1 ch2 : Nat) (bound : Bool) (mid0 mid1 mid2 : List Macro)
+  | sar (hostport : Str) (attrs : Attrs) (ch : Nat) (bound : Bool) (mid0 mid : List Macro)
 
 structure Run where
   s : State
@@ -653,26 +713,37 @@ def Run.app (r : Run) (env : Env) (st : Step) : Run :=
 mutual
   def runMacro (env : Env) (r : Run) : Macro → Run
     | .ev e => r.app env (.ev e)
-    | .tok host tok ch1 ch2 mid1 mid2 =>
+    | .tok hostport tok ch1 ch2 bound mid0 mid1 mid2 =>
+      let host := hostWithoutPort hostport
       let r := r.app env (.ev (.tick 1))
-      let rid := r.s.nextRid
-      let r := ((r.app env (.tokBegin rid host tok ch1)).app env (.tokCache rid)).app env (.tokLookup rid)
-      if (findTok r.s rid).isNone then r
+      -- WithUpstreamInfo (only for `bound` requests): unknown host => 503, the request never reaches authentication
+      if bound && (mgrGet r.s.mgr host).isNone then r
       else
-        let r := runMacros env r mid1
-        let r := r.app env (.tokReview rid ch2)
+        let up := if bound then mgrGet r.s.mgr host else none
+        let r := runMacros env r mid0
+        let rid := r.s.nextRid
+        let r := ((r.app env (.tokBegin rid host tok ch1 up)).app env (.tokCache rid)).app env (.tokLookup rid)
         if (findTok r.s rid).isNone then r
         else
-          let r := runMacros env r mid2
-          r.app env (.tokFinish rid)
-    | .sar host attrs ch mid =>
+          let r := runMacros env r mid1
+          let r := r.app env (.tokReview rid ch2)
+          if (findTok r.s rid).isNone then r
+          else
+            let r := runMacros env r mid2
+            r.app env (.tokFinish rid)
+    | .sar hostport attrs ch bound mid0 mid =>
+      let host := hostWithoutPort hostport
       let r := r.app env (.ev (.tick 1))
-      let rid := r.s.nextRid
-      let r := ((r.app env (.sarBegin rid host attrs ch)).app env (.sarCache rid)).app env (.sarLookup rid)
-      if (findSar r.s rid).isNone then r
+      if bound && (mgrGet r.s.mgr host).isNone then r
       else
-        let r := runMacros env r mid
-        r.app env (.sarFinish rid)
+        let up := if bound then mgrGet r.s.mgr host else none
+        let r := runMacros env r mid0
+        let rid := r.s.nextRid
+        let r := ((r.app env (.sarBegin rid host attrs ch up)).app env (.sarCache rid)).app env (.sarLookup rid)
+        if (findSar r.s rid).isNone then r
+        else
+          let r := runMacros env r mid
+          r.app env (.sarFinish rid)
   def runMacros (env : Env) (r : Run) : List Macro → Run
     | [] => r
     | m :: ms => runMacros env (runMacro env r m) ms
